@@ -40,8 +40,11 @@ Arguments Env {I} est enext.
 Arguments est {I} e.
 Arguments enext {I} e s i.
 
-Inductive ev (O : Type) := EvRead (src : nat) | EvYield (o : O) | EvStop | EvRaise (e : string) | EvOut.
+(* EvRead i: source i delivered an item (or raised: a tripwire source raises instead of delivering);
+   EvEnd i: source i was asked and found exhausted *)
+Inductive ev (O : Type) := EvRead (src : nat) | EvEnd (src : nat) | EvYield (o : O) | EvStop | EvRaise (e : string) | EvOut.
 Arguments EvRead {O} src.
+Arguments EvEnd {O} src.
 Arguments EvYield {O} o.
 Arguments EvStop {O}.
 Arguments EvRaise {O} e.
@@ -65,11 +68,10 @@ Fixpoint run (fuel k : nat) (s : st m) (e : est E) : list (ev O) :=
       | Yield o s' => EvYield o :: run f k' s' e
       | Tau s' => run f k s' e
       | Read i kont =>
-          EvRead i ::
           match enext E e i with
-          | (Item x, e') => run f k (kont (Some x)) e'
-          | (End, e') => run f k (kont None) e'
-          | (Boom, _) => [EvRaise tripwire]
+          | (Item x, e') => EvRead i :: run f k (kont (Some x)) e'
+          | (End, e') => EvEnd i :: run f k (kont None) e'
+          | (Boom, _) => [EvRead i; EvRaise tripwire]
           end
       | Stop => [EvStop]
       | Raise err => [EvRaise err]
@@ -88,6 +90,8 @@ Definition yields (t : list (ev O)) : list O :=
   flat_map (fun e => match e with EvYield o => [o] | _ => [] end) t.
 Definition clean (t : list (ev O)) : bool :=
   forallb (fun e => match e with EvRead _ | EvYield _ => true | _ => false end) t.
+Definition ends (i : nat) (t : list (ev O)) : nat :=
+  List.length (filter (fun e => match e with EvEnd j => Nat.eqb j i | _ => false end) t).
 End Traces.
 
 (* ------------------------------------------------------------------ families *)
@@ -278,6 +282,35 @@ Definition mresample {B : Type} (o : B) (n0 : nat) (idx0 thr stp one : Z) : mach
                  then Read 0 (fun x => match x with Some _ => RGo (idx - one)%Z | None => RFin end)
                  else Yield o (RGo (idx + stp)%Z)
     | RFin => Stop
+    end).
+
+(* zcross(seq, hysteresis, first_sign=0): the first loop yields 0 until an item outside the
+   hysteresis region fixes the sign, then the second loop takes over the same iterator; when the
+   input ends inside the first loop, the second loop asks the exhausted iterator once more *)
+Inductive zc_st := XA | XAOut (x : A) | XB | XBOut (x : A) | XFin.
+Definition mzcross (sgn : A -> bool) : machine A A :=
+  Machine zc_st XA (fun s =>
+    match s with
+    | XA => Read 0 (fun x => match x with Some v => XAOut v | None => XB end)
+    | XAOut v => Yield v (if sgn v then XB else XA)
+    | XB => Read 0 (fun x => match x with Some v => XBOut v | None => XFin end)
+    | XBOut v => Yield v XB
+    | XFin => Stop
+    end).
+
+(* itertools.batched(seq, n) (CPython 3.12): n reads per batch; the end of the input gives the
+   partial batch if there is one; the iterator is not marked finished then, so the demand after a
+   partial batch asks the exhausted input again *)
+Inductive bat_st := HGo (j : nat) (acc : list A) | HOut (acc : list A) | HFin.
+Definition mbatched (n : nat) : machine A (list A) :=
+  Machine bat_st (HGo 0 []) (fun s =>
+    match s with
+    | HGo j acc => Read 0 (fun x => match x with
+                                    | Some v => if S j =? n then HOut (rev (v :: acc)) else HGo (S j) (v :: acc)
+                                    | None => match acc with [] => HFin | _ => HOut (rev acc) end
+                                    end)
+    | HOut acc => Yield acc (HGo 0 [])
+    | HFin => Stop
     end).
 
 (* itertools.cycle(seq): pass through while saving, then replay for ever without reading *)
